@@ -271,6 +271,13 @@ def check(pid, tier):
     if lock.get("obligations") and len(coarse_now) * 2 < len(lock["obligations"]):
         missing.append(f"obligation count collapsed: {len(coarse_now)} now vs {len(lock['obligations'])} locked")
 
+    if os.environ.get("VERIF_UPDATE_LOCK") == "1" and "VERIF_REPO_SRC" not in os.environ:
+        lk = load_json(os.path.join(HERE, "obligations.lock"), {})
+        lk[pid] = {"obligations": sorted(c for c, os_ in coarse_now.items() if all(o.status == "discharged" for o in os_)),
+                   "functions": sorted(r.target for r in reports)}
+        with open(os.path.join(HERE, "obligations.lock"), "w") as fh:
+            json.dump(lk, fh, indent=1, sort_keys=True)
+
     # ---- B
     bounded = []
     for modname in cfg.get("bounded", []):
